@@ -2,7 +2,13 @@
 """prints the markdown table of /verif/seeded/*/meta.json for DESIGN.md section 15"""
 import json, glob, os
 rows = []
-for f in sorted(glob.glob(os.path.join(os.path.dirname(__file__), "..", "seeded", "*", "meta.json"))):
+def _key(f):
+    sid = os.path.basename(os.path.dirname(f))
+    a, _, b = sid.partition("-")
+    return (a, int(b) if b.isdigit() else 0)
+
+
+for f in sorted(glob.glob(os.path.join(os.path.dirname(__file__), "..", "seeded", "*", "meta.json")), key=_key):
     m = json.load(open(f))
     sid = os.path.basename(os.path.dirname(f))
     am = m.get("agent_meta", {})
